@@ -110,6 +110,17 @@ func RunC03(e *core.Env) int {
 			rep.Sample(map[string]any{"case": c.S.ID, "setup": core.Trunc(c.S.Files[c.S.Setup], 1000), "functions": ExpectedFuncKeys(c.S)}, 2)
 		}
 	}
+	// fixed valid uses of functions reached through the setup file's imports (dot import, blank import of a
+	// package named unlike its directory, blank import in front of a same-named ordinary one)
+	if cb, err := NewBatch(e, "validuses", corpusImportedFuncs("kc03")); err == nil {
+		cb.RunTool(e, true)
+		for _, c := range cb.Cases {
+			c.S.Features["layout.vector"] = "corpus:" + c.S.ID
+			judge(c)
+		}
+	} else {
+		rep.Inconclusive("batch setup: " + err.Error())
+	}
 	runBroadBatches(e, rep, "layout", nLayout, 300, judge)
 	runBroadBatches(e, rep, "broad", nBroad, 150, judge)
 	return rep.Finish()
